@@ -46,6 +46,15 @@ def gen(rng):
             if rng.random() < 0.5:
                 steps.append(['d', v_ + '/.Trash/%d/files' % uid, 0o700])
                 steps.append(['d', v_ + '/.Trash/%d/info' % uid, 0o700])
+    if rng.random() < 0.12:
+        # trash directories that exist but are INCOMPLETE: info/ without files/ (somebody emptied the trash with rm -rf .../files)
+        # or files/ without info/: what is missing is created on demand, the directory is still the one to use
+        cands_ = [G.home_trash_of(env)] + [v_ + '/.Trash-%d' % uid for v_ in L['vols'] if L['trash'][v_]['alt'] in ('absent', 'dir')] + \
+                 [v_ + '/.Trash/%d' % uid for v_ in L['vols'] if L['trash'][v_]['top'] == 'sticky']
+        for t_ in cands_:
+            if rng.random() < 0.6:
+                steps.append(['d', t_, 0o700])
+                steps.append(['d', t_ + '/' + rng.choice(['info', 'info', 'files']), 0o700])
     place = rng.choice(['home', 'home', 'vol', 'vol', 'nested', 'via_link', 'link_parent', 'root_tmp', 'link_arg_slash'])
     if place in ('vol', 'via_link', 'link_arg_slash') and not L['vols']:
         place = 'home'
